@@ -151,8 +151,13 @@ def gen_def(rng, indent, name, first=None, depth=0, allow_nested=True):
     if len(parts) > 1 and rng.random() < 0.15:
         feats.add("multiline-header")
         lines.append("%s%s %s(" % (pad, kw, name))
+        # PEP 484 per-argument type comments on the un-annotated plain parameters of a multi-line header
+        tc = rng.random() < 0.4
         for p in parts:
-            lines.append("%s    %s," % (pad, p))
+            plain = tc and ":" not in p and not p.startswith("*") and p not in ("self", "cls")
+            if plain:
+                feats.add("arg-type-comments")
+            lines.append("%s    %s,%s" % (pad, p, "  # type: int" if plain else ""))
         lines.append("%s)%s:%s" % (pad, rt, trailer))
     else:
         lines.append("%s%s %s(%s)%s:%s" % (pad, kw, name, ", ".join(parts), rt, trailer))
@@ -230,6 +235,9 @@ def gen_module(rng):
             defs.append(("function", nm, f))
         if rng.random() < 0.3:
             lines += ["# between definitions", "SETTING = %d" % rng.randint(0, 9), ""]
+        if rng.random() < 0.15:
+            # literal TAB characters outside indentation: inside a string constant, and before a trailing comment
+            lines += ['SEP = "\t"', "COLUMNS = 'name\tvalue'", "WIDTH = 8\t# aligned with a tab", ""]
     return "\n".join(lines).rstrip("\n") + "\n", defs
 
 
@@ -345,7 +353,7 @@ def def_features(node, src_lines):
     first = node.body[0]
     # the header proper: from the def keyword to the line of the colon that closes the signature
     depth, hdr_end = 0, node.lineno
-    header_comment, arrows_in_strings, colon_seen = False, 0, False
+    header_comment, arrows_in_strings, colon_seen, inside_comment = False, 0, False, False
     try:
         toks = tokenize.generate_tokens(io.StringIO("\n".join(src_lines[node.lineno - 1:first.lineno]) + "\n").readline)
         for t in toks:
@@ -357,7 +365,7 @@ def def_features(node, src_lines):
                     break
                 continue
             if t.type == tokenize.COMMENT:
-                header_comment = True
+                inside_comment = True      # a comment between the parentheses of a multi-line header (e.g. a per-argument type comment)
             elif t.type == tokenize.STRING and "->" in t.string:
                 arrows_in_strings += 1
             elif t.type == tokenize.OP and t.string in "([{":
@@ -373,6 +381,8 @@ def def_features(node, src_lines):
         f.add("multiline-header")
     if header_comment:
         f.add("comment-after-header")
+    if inside_comment:
+        f.add("comment-inside-header")
     if arrows_in_strings:
         # maybe_replace_function_args looks for the LAST "->" before the final colon; once the return annotation is gone (or was
         # never there) that is the one inside the string default: the re-printed header is cut there
